@@ -600,6 +600,18 @@ const KINDS: &[Kind] = &[
     Kind { regex: "[A-Za-z_]\\w*", acc: &["Ab_1", "x", "fooBar", "XMLHttp"], rej: &["1a", "", "a-b"], excl: "/.-;=" },
     Kind { regex: "\\d{2,3}", acc: &["12", "123"], rej: &["1", "1234", "ab"], excl: "/.-_;=abcxyz" },
     Kind { regex: "[a-z\u{5d0}]+", acc: &["abc", "%D7"], rej: &["", "\u{5d0}x!"], excl: "/.-_;=" },
+    // expressions with characters a URL-ish percent-encode set would rewrite: Rule::markers() encodes with CONTROLS only, so they
+    // must reach the regex engine verbatim (in a path the REQUEST side is sanitised: space " # < > never match there)
+    Kind { regex: "[A-Za-z]+ [0-9]+", acc: &["Foo 12", "x 7"], rej: &["Foo12", "Foo  12", " 1", "Foo%2012"], excl: "/.-_;=" },
+    Kind { regex: "(?P<year>[0-9]{4})-[0-9]{2}", acc: &["2024-01", "1999-12"], rej: &["2024-1", "24-01", ""], excl: "/._;=abcxyz" },
+    Kind { regex: "a#b", acc: &["a#b"], rej: &["a#", "ab", "a%23b"], excl: "/.-_;=" },
+    Kind { regex: "\"q\"[a-z]*", acc: &["\"q\"", "\"q\"x"], rej: &["q", "\"q", "%22q%22"], excl: "/.-_;=0123" },
+    Kind { regex: "[<>]+", acc: &["<>", "<", "><>"], rej: &["", "<a", "%3C"], excl: "/.-_;=abc" },
+    Kind { regex: "(?:%[0-9A-F]{2})+", acc: &["%41", "%D7%90", "\u{5d0}", "%20%7B"], rej: &["%4", "41", "%zz", ""], excl: "/.-_;=" },
+    Kind { regex: "[a-z+]+\\+[0-9]", acc: &["a+b+1", "x+2", "++3"], rej: &["ab1", "+", "a+b"], excl: "/.-_;=" },
+    Kind { regex: "\\{[a-z]+\\}|x{2}", acc: &["{k}", "xx", "{abc}"], rej: &["{}", "x", "{k", "xxx"], excl: "/.-_;=0123" },
+    Kind { regex: "p\\|q|r\\\\s", acc: &["p|q", "r\\s"], rej: &["p", "q", "rs", "p|"], excl: "/.-_;=0123" },
+    Kind { regex: "a\\^b`?", acc: &["a^b", "a^b`"], rej: &["ab", "a^", "a^b``"], excl: "/.-_;=0123" },
 ];
 
 const NAMES: &[&str] = &["a", "ab", "abc", "b", "id", "id2", "year", "m", "ID", "x_1", "slug", "idx"];
@@ -904,7 +916,11 @@ fn gen_law(rng: &mut Prng) -> Value {
         hay.push('/');
     }
     for i in 0..k {
-        let kind = rng.below(KINDS.len());
+        // (a named group inside the expression adds its own capture: outside the token-level law)
+        let mut kind = rng.below(KINDS.len());
+        while KINDS[kind].regex.contains("(?P<") {
+            kind = rng.below(KINDS.len());
+        }
         let name = if rng.chance(1, 8) && i > 0 { names[0] } else { names[i % names.len()] };
         ts.push(json!(["g", name, KINDS[kind].regex]));
         let pool = if rng.chance(3, 4) { KINDS[kind].acc } else { KINDS[kind].rej };
@@ -943,8 +959,116 @@ fn gen_tr(rng: &mut Prng) -> Value {
     json!({"kind": "tr", "chain": chain, "vals": vals})
 }
 
+/// Diff-directed cases (VERIF_HINTS): sizes n-1, n, n+1 at every countable / sizable place of the grammar, hinted strings (also
+/// upper/lower-cased) at every place with free text.  No instantiation claims: the model and the substitution specification
+/// are compared as for every other case.
+fn gen_hints(h: &Hints, emit: &mut dyn FnMut(Value)) {
+    let base = |markers: Value, path: String, target: String, req_path: String| -> Value {
+        json!({"cfg": {}, "markers": markers, "vars": [], "path": path, "host": null, "hdrs": [], "target": target, "hf": [], "bf": [], "hbf": [],
+               "req": {"path": req_path, "host": null, "scheme": null, "method": null, "hdrs": []}})
+    };
+    // ---- sizes: lengths
+    for n in h.sizes(300) {
+        let val: String = "a".repeat(n);
+        let name: String = "n".repeat(n);
+        // a value, a name, a literal, a target of that length
+        emit(base(json!([{"name": "m", "regex": "[a-z]+", "tr": []}]), "/p/@m".into(), "/t/@m".into(), format!("/p/{val}")));
+        emit(base(json!([{"name": name, "regex": "[a-z]+", "tr": []}]), format!("/p/@{name}"), format!("/t/@{name}-@{name}x"), "/p/abc".into()));
+        emit(base(json!([{"name": "m", "regex": "[a-z]+", "tr": []}]), format!("/{val}/@m"), format!("/{val}@m{val}"), format!("/{val}/xy")));
+        // slice bounds around n on values of length around n (ASCII and multi-byte)
+        for (from, to) in [(n.saturating_sub(1), n + 1), (0, n), (n, n + 1), (n + 1, n), (1, n.saturating_sub(1))] {
+            let tr = json!([{"type": "slice", "opts": [["from", from.to_string()], ["to", to.to_string()]]}]);
+            emit(json!({"kind": "tr", "chain": tr, "vals": [val.clone(), format!("{val}b"), "a".repeat(n.saturating_sub(1)), "\u{5d0}".repeat(n / 2 + 1), format!("{}\u{65e5}", "a".repeat(n.saturating_sub(2)))]}));
+        }
+        emit(json!({"kind": "tr", "chain": [{"type": "replace", "opts": [["something", "a".repeat(n.min(40))], ["with", "b"]]}], "vals": [val.clone(), format!("{val}a"), "a".repeat(n.saturating_sub(1))]}));
+        emit(json!({"kind": "sub", "vars": [["a", val.clone()], [name.clone(), "x"]], "ts": [format!("@a@{name}@{name}y"), "@".repeat(n.min(120)), "@a".repeat(n.min(120))]}));
+    }
+    // ---- sizes: counts (markers with prefix-sharing names a, aa, aaa, ..; variables; transformers; filters; cache calls)
+    for n in h.sizes(24) {
+        let names: Vec<String> = (1..=n).map(|i| "a".repeat(i)).collect();
+        let markers: Vec<Value> = names.iter().map(|nm| json!({"name": nm, "regex": "[0-9]+", "tr": []})).collect();
+        let path = format!("/{}", names.iter().map(|nm| format!("@{nm}")).collect::<Vec<_>>().join("/"));
+        let req = format!("/{}", (1..=n).map(|i| i.to_string()).collect::<Vec<_>>().join("/"));
+        let target = names.iter().rev().map(|nm| format!("@{nm}")).collect::<Vec<_>>().join("-");
+        let mut c = base(Value::Array(markers.clone()), path.clone(), format!("/t/{target}@"), req.clone());
+        c["hf"] = Value::Array((0..n).map(|i| json!(format!("h{i}-@{}", names[i % n]))).collect());
+        c["bf"] = Value::Array((0..n.min(6)).map(|i| json!(format!("b{i}@{}", names[n - 1 - i % n]))).collect());
+        c["cache"] = json!({"calls": (0..n.min(8)).map(|i| if i % 2 == 0 { Value::Null } else { json!(i as u64) }).collect::<Vec<_>>(), "on_clone": n % 2 == 0});
+        emit(c.clone());
+        // the same markers, explicit variables (n of them, names colliding with marker names) with n transformers
+        let chain: Vec<Value> = (0..n).map(|i| match i % 4 { 0 => json!({"type": "uppercase", "opts": null}), 1 => json!({"type": "replace", "opts": [["something", "1"], ["with", "11"]]}), 2 => json!({"type": "slice", "opts": [["from", "0"], ["to", (n + 2).to_string()]]}), _ => json!({"type": "lowercase", "opts": null}) }).collect();
+        c["vars"] = Value::Array((0..n).map(|i| json!({"name": names[n - 1 - i], "kind": "marker", "arg": names[i], "tr": if i == 0 { Value::Array(chain.clone()) } else { json!([]) }})).collect());
+        emit(c);
+        emit(json!({"kind": "sub", "vars": names.iter().enumerate().map(|(i, nm)| json!([nm, i.to_string()])).collect::<Vec<_>>(), "ts": [format!("{target}-@{}a", names[n - 1]), format!("@{}", "a".repeat(n + 1))]}));
+        emit(json!({"kind": "tr", "chain": chain, "vals": ["a1b1", "1", ""]}));
+    }
+    // ---- strings: every place with free text
+    let plain_in_regex = |t: &str| !t.chars().any(|c| "\\.+*?()|[]{}^$".contains(c));
+    let mut strs: Vec<String> = Vec::new();
+    for t in &h.strs {
+        // the driver's character model is exact on ASCII and treats every other char as an uncased letter: other hinted text is skipped
+        if t.is_empty() || t.chars().any(|c| !c.is_ascii() && (c.is_lowercase() || c.is_uppercase() || !c.is_alphabetic())) {
+            continue;
+        }
+        let t: String = t.chars().take(64).collect();
+        for v in [t.clone(), t.to_uppercase(), t.to_lowercase()] {
+            if !strs.contains(&v) {
+                strs.push(v);
+            }
+        }
+    }
+    for t in &strs {
+        let in_path = !t.contains('?');
+        let lit = if plain_in_regex(t) { t.clone() } else { regex::escape(t) };
+        let swapped: String = t.chars().map(|c| if c.is_ascii_lowercase() { c.to_ascii_uppercase() } else { c.to_ascii_lowercase() }).collect();
+        for (ipc, ihc, ihdc) in [(false, false, false), (true, true, true)] {
+            let cfg = json!({"ipc": ipc, "ihc": ihc, "ihdc": ihdc});
+            // in a marker expression (verbatim when it is plain regex text), in host and header trigger (and path when possible)
+            let mut c = json!({"cfg": cfg, "markers": [{"name": "m", "regex": format!("[a-z]+{lit}[0-9]+"), "tr": []}, {"name": "v", "regex": ".+?", "tr": []}],
+                "vars": [], "path": if in_path { "/p/@m/@v" } else { "/p" }, "host": "@m.example.org",
+                "hdrs": [{"name": "X-Foo", "value": "k=@m;@v"}], "target": format!("/t/{t}@m{t}@v@"), "hf": [format!("{t}@v"), format!("@m{t}")], "bf": [format!("@v{t}@m")],
+                "hbf": [[format!("<p>{t}@v</p>"), null]],
+                "req": {"path": if in_path { format!("/p/ab{t}12/{t}") } else { "/p".to_string() }, "host": format!("ab{t}12.example.org"), "scheme": null, "method": null,
+                        "hdrs": [["x-foo", format!("k=ab{t}12;{t}")]]}});
+            emit(c.clone());
+            c["req"]["host"] = json!(format!("ab{swapped}12.example.org"));
+            c["req"]["hdrs"] = json!([["X-FOO", format!("k=ab{swapped}12;{swapped}")]]);
+            emit(c);
+            // as marker / variable / header name, as literal of the rule path, in transformer options
+            let mut d = json!({"cfg": cfg, "markers": [{"name": t, "regex": "[0-9]+", "tr": [{"type": "replace", "opts": [["something", "1"], ["with", t]]}]},
+                                                      {"name": format!("a{t}"), "regex": "[a-z]+", "tr": [{"type": "replace", "opts": [["something", t], ["with", "X"]]}, {"type": "slice", "opts": [["from", t], ["to", t]]}]}],
+                "vars": [], "path": format!("/{}/@{t}/@a{t}", if in_path { t.as_str() } else { "q" }), "host": null, "hdrs": [{"name": t, "value": format!("{t}@a{t}")}],
+                "target": format!("/t/@{t}/@a{t}/@{swapped}"), "hf": [], "bf": [], "hbf": [],
+                "req": {"path": format!("/{}/12/xy", if in_path { t.as_str() } else { "q" }), "host": null, "scheme": null, "method": null, "hdrs": [[swapped, format!("{t}xy")]]}});
+            if !in_path {
+                // '?' cannot appear in a path here: the markers named after the hint go to the host
+                d["path"] = json!("/q");
+                d["host"] = json!(format!("@{t}-@a{t}.org"));
+                d["req"]["path"] = json!("/q");
+                d["req"]["host"] = json!("12-xy.org");
+            }
+            emit(d.clone());
+            d["vars"] = json!([{"name": t, "kind": "header", "arg": swapped, "def": t, "tr": []}, {"name": format!("a{t}"), "kind": "marker", "arg": t, "tr": []},
+                               {"name": "h", "kind": "header", "arg": "Missing", "def": t, "tr": [{"type": "uppercase", "opts": null}]}]);
+            d["target"] = json!(format!("/t/@{t}/@a{t}/@h"));
+            emit(d);
+        }
+        emit(json!({"kind": "sub", "vars": [[t, "1"], [format!("a{t}"), t], ["a", format!("{t}@a")], [swapped, "2"]], "ts": [format!("@{t}@a{t}@a"), format!("{t}@{swapped}{t}"), format!("@a@{t}")]}));
+        for kind in ["camelize", "dasherize", "underscorize", "lowercase", "uppercase"] {
+            emit(json!({"kind": "tr", "chain": [{"type": kind, "opts": null}], "vals": [t, format!("foo{t}Bar"), format!("{t}{t}"), format!("A{t}b")]}));
+        }
+        emit(json!({"kind": "tr", "chain": [{"type": "replace", "opts": [["something", t], ["with", "-"]]}, {"type": "replace", "opts": [["something", "-"], ["with", t]]}], "vals": [format!("a{t}b{t}"), t, ""]}));
+        emit(json!({"kind": "law", "ic": false, "ts": [["l", "/"], ["g", "m", format!("[a-z]+{lit}[0-9]+")], ["l", "-"], ["g", "v", ".*"]], "s": format!("/ab{t}12-{t}")}));
+        emit(json!({"kind": "law", "ic": true, "ts": [["g", "m", format!("[a-z]+{lit}[0-9]+")]], "s": format!("AB{swapped}12")}));
+    }
+}
+
 fn gen(args: &Args, emit: &mut dyn FnMut(Value)) {
     let mut rng = Prng::new(args.seed);
+    let h = hints();
+    if !h.is_empty() {
+        gen_hints(&h, emit);
+    }
     if args.tier == "thorough" {
         // exhaustive: every string of length <= 5 over {a, b, A, B, 1, _, -} through each case transformer
         let sym = ['a', 'b', 'A', 'B', '1', '_', '-'];
